@@ -1,4 +1,429 @@
-/- C03 — model and specification (stub; see HACKING.md) -/
+/-
+  C03 — every atom carries exactly the attributes the SHELXL rules assign to it.
+
+  Model of (the repository after fixes/C03_1 … C03_5):
+    Shelxfile._parse_cards, the RESI / PART / AFIX / atom / FRAG / FEND / HKLF / END branches (shelx.py)
+                                                            -> `step`, `run`        (`stepBug`: before the fixes)
+    Atom.parse_line, Atom._get_part_and_occupation (atom.py)  -> `mkAtom`, `pad6`, `peakShaped`
+    Atom.part.n / afix.mn / resinum / resiclass, read AFTER parsing -> `observeAtom`, `observe`
+    Shelxfile.sfac2elem + SFACTable.__getitem__               -> `sfac2elem`
+    RESI._get_resi_definition (cards.py)                      -> `resiDecode`
+    Shelxfile._find_included_files                            -> `splice`
+    Atoms.hydrogen_atoms / q_peaks / riding_atoms / residues / atoms_in_class / n_*  -> `View.*`
+  Python objects that are shared BY REFERENCE (the running PART/AFIX/RESI object that every atom captures)
+  live in an explicit heap (`State.parts/afixes/resis`); an atom stores the *index* of its object. That makes
+  the difference between "install a fresh object" (`step`) and "mutate the shared one" (`stepBug`) expressible.
+
+  Specification (code independent, no state, no heap): `inForce`, `specAtom`, `specAtoms`, `specElement`,
+  `resiSpec`, `spliceSpec`.
+-/
 namespace Shelx.C03
+
+/-! ### abstract lines -/
+
+/-- an atom line `name sfac x y z sof U…`; `tag` stands for name and coordinates (passed through untouched) -/
+structure AtomLine where
+  tag  : Nat
+  sfac : Int
+  sof  : Rat
+  u    : List Rat
+deriving DecidableEq, Repr
+
+inductive Line where
+  | part (n : Int) (sof : Rat)        -- `PART n sof[11]`  (an absent sof is the documented default 11)
+  | afix (mn : Int)                   -- `AFIX mn …`
+  | resi (cls : String) (num : Int)   -- `RESI class number` (decoded, see `resiDecode`)
+  | atom (a : AtomLine)               -- a line `is_atom` accepts
+  | frag                              -- `FRAG code a b c α β γ`
+  | fend
+  | hklf
+  | fin                               -- `END`
+  | other                             -- any other instruction, comment, blank
+deriving DecidableEq, Repr
+
+/-! ### model: heap objects and parser state -/
+
+structure PartObj where
+  n : Int
+  sof : Rat
+deriving DecidableEq, Repr
+
+structure AfixObj where
+  mn : Int
+deriving DecidableEq, Repr
+
+structure ResiObj where
+  cls : String
+  num : Int
+deriving DecidableEq, Repr
+
+/-- a Python `Atom` object: own values + references (heap indices) to its PART / AFIX / RESI object -/
+structure AtomRec where
+  tag : Nat
+  sfac : Int
+  sof : Rat
+  uvals : List Rat
+  part : Nat
+  afix : Option Nat       -- `None` until the first AFIX line of the file
+  resi : Nat
+  qpeak : Bool
+deriving DecidableEq, Repr
+
+structure State where
+  parts : List PartObj
+  afixes : List AfixObj
+  resis : List ResiObj
+  part : Nat              -- self.part  (reference)
+  afix : Option Nat       -- self.afix
+  resi : Nat              -- self.resi
+  frag : Bool             -- self.frag is set
+  hklf : Bool             -- self.hklf is set
+  ended : Bool            -- self.end
+  atoms : List AtomRec    -- self.atoms.all_atoms
+deriving Repr
+
+/-- `Shelxfile.__init__`: `self.part = PART 0`, `self.resi = RESI 0`, `self.afix = None` -/
+def init : State :=
+  { parts := [⟨0, 11⟩], afixes := [], resis := [⟨"", 0⟩], part := 0, afix := none, resi := 0,
+    frag := false, hklf := false, ended := false, atoms := [] }
+
+/-- `uvals = [0.0]*6; for n, u in enumerate(atline[6:12]): uvals[n] = float(u)` -/
+def pad6 (u : List Rat) : List Rat :=
+  let v := u.take 6
+  v ++ List.replicate (6 - v.length) 0
+
+def absR (x : Rat) : Rat := if x < 0 then -x else x
+
+/-- the shape test of the Q-peak rule: `abs(uvals[1]) > 0.0 and abs(uvals[2]) < 0.000001` -/
+def peakShaped (uv : List Rat) : Bool :=
+  match uv with
+  | _ :: h :: u3 :: _ => decide (absR h > 0) && decide (absR u3 < 1 / 1000000)
+  | _ => false
+
+/-- `Atom.parse_line`: occupation code from the PART in force unless that is the default 11, Q-peak rule.
+    (`s.parts[s.part]?` cannot be `none`: `context_invariant` proves `s.part < s.parts.length`.) -/
+def mkAtom (s : State) (a : AtomLine) : AtomRec :=
+  let uv := pad6 a.u
+  let sof := match s.parts[s.part]? with
+    | some p => if p.sof ≠ 11 then p.sof else a.sof
+    | none => a.sof
+  { tag := a.tag, sfac := a.sfac, sof := sof, uvals := uv, part := s.part, afix := s.afix, resi := s.resi,
+    qpeak := (peakShaped uv && s.hklf) || s.ended }
+
+/-- HKLF / END after the fixes: *new* `RESI 0`, `PART 0`, `AFIX 0` objects become current -/
+def resetCtx (s : State) : State :=
+  { s with resis := s.resis ++ [⟨"", 0⟩], resi := s.resis.length,
+           parts := s.parts ++ [⟨0, 11⟩], part := s.parts.length,
+           afixes := s.afixes ++ [⟨0⟩], afix := some s.afixes.length }
+
+/-- one iteration of `_parse_cards` -/
+def step (s : State) : Line → State
+  | .resi c n => { s with resis := s.resis ++ [⟨c, n⟩], resi := s.resis.length }
+  | .part n f => { s with parts := s.parts ++ [⟨n, f⟩], part := s.parts.length }
+  | .afix mn => { s with afixes := s.afixes ++ [⟨mn⟩], afix := some s.afixes.length }
+  | .atom a => if s.frag then s else { s with atoms := s.atoms ++ [mkAtom s a] }
+  | .frag => { s with frag := true }
+  | .fend => { s with frag := false }      -- (FEND without FRAG raises in Python: excluded by `fragOK`)
+  | .hklf => { resetCtx s with hklf := true }
+  | .fin => { resetCtx s with ended := true }
+  | .other => s
+
+def run (file : List Line) : State := file.foldl step init
+
+/-! #### the code before fixes C03_1 … C03_3 (commit e475fe2): HKLF / END mutate the shared objects -/
+
+def setAt {α} (l : List α) (i : Nat) (f : α → α) : List α :=
+  match l[i]? with
+  | some v => l.set i (f v)
+  | none => l
+
+/-- `PART.__bool__`: `n > 0` -/
+def partTruthy (s : State) : Bool := match s.parts[s.part]? with | some p => decide (p.n > 0) | none => false
+/-- `self.afix and …`: `None` is false, `AFIX.__bool__` is `mn > 0` -/
+def afixTruthy (s : State) : Bool :=
+  match s.afix with
+  | some i => (match s.afixes[i]? with | some a => decide (a.mn > 0) | none => false)
+  | none => false
+
+/-- `if … and self.part: self.part.n = 0` / `if … and self.afix: self.afix.mn = 0` (and `self.resi.num = 0`,
+    an attribute nobody reads). Returns the new state and whether the `elif` chain was entered. -/
+def barrierBug (s : State) : State × Bool :=
+  let s1 := if partTruthy s then { s with parts := setAt s.parts s.part fun p => { p with n := 0 } } else s
+  match s1.afix with
+  | some i => if afixTruthy s1 then ({ s1 with afixes := setAt s1.afixes i fun a => { a with mn := 0 } }, false)
+              else (s1, true)
+  | none => (s1, true)
+
+def stepBug (s : State) : Line → State
+  | .hklf => let (s', chain) := barrierBug s; if chain then { s' with hklf := true } else s'
+  | .fin => let (s', chain) := barrierBug s; if chain then { s' with ended := true } else s'
+  | .atom a => { s with atoms := s.atoms ++ [mkAtom s a] }
+  | l => step s l
+
+def runBug (file : List Line) : State := file.foldl stepBug init
+
+/-! ### observation (after parsing finished) -/
+
+structure AtomObs where
+  tag : Nat
+  sfac : Int
+  sof : Rat
+  uvals : List Rat
+  part : Int
+  afix : Int             -- `atom.afix.mn`, 0 when there is no AFIX object
+  resiNum : Int
+  resiCls : String
+  qpeak : Bool
+deriving DecidableEq, Repr
+
+/-- `atom.afix.mn` through the reference; an atom created before the first AFIX line has `afix = None` (0) -/
+def afixMn (afixes : List AfixObj) : Option Nat → Option Int
+  | none => some 0
+  | some i => (afixes[i]?).map (·.mn)
+
+/-- reads through the references, as `atom.part.n`, `atom.afix.mn`, `atom.resinum`, `atom.resiclass` do;
+    `none` = dangling reference -/
+def observeAtom (s : State) (a : AtomRec) : Option AtomObs :=
+  match s.parts[a.part]?, s.resis[a.resi]?, afixMn s.afixes a.afix with
+  | some p, some r, some mn =>
+    some { tag := a.tag, sfac := a.sfac, sof := a.sof, uvals := a.uvals, part := p.n, afix := mn,
+           resiNum := r.num, resiCls := r.cls, qpeak := a.qpeak }
+  | _, _, _ => none
+
+def observe (s : State) : List (Option AtomObs) := s.atoms.map (observeAtom s)
+
+/-! ### specification -/
+
+def isHklf : Line → Bool | .hklf => true | _ => false
+def isFin : Line → Bool | .fin => true | _ => false
+/-- HKLF and END end every PART, AFIX and residue -/
+def isBarrier (l : Line) : Bool := isHklf l || isFin l
+
+/-- The instruction in force. `before` = the lines above the atom, **nearest first**. The nearest line that
+    is either an instruction of the kind (`sel`) or HKLF/END decides; nothing found: the default. -/
+def inForce {α} (sel : Line → Option α) (dflt : α) : List Line → α
+  | [] => dflt
+  | l :: ls => if isBarrier l then dflt else match sel l with
+    | some v => v
+    | none => inForce sel dflt ls
+
+def selPart : Line → Option PartObj | .part n f => some ⟨n, f⟩ | _ => none
+def selAfix : Line → Option Int | .afix mn => some mn | _ => none
+def selResi : Line → Option ResiObj | .resi c n => some ⟨c, n⟩ | _ => none
+
+def specPart (before : List Line) : PartObj := inForce selPart ⟨0, 11⟩ before
+def specAfix (before : List Line) : Int := inForce selAfix 0 before
+def specResi (before : List Line) : ResiObj := inForce selResi ⟨"", 0⟩ before
+
+/-- inside a `FRAG … FEND` block: the nearest FRAG/FEND above is a FRAG -/
+def inFrag : List Line → Bool
+  | [] => false
+  | .frag :: _ => true
+  | .fend :: _ => false
+  | _ :: ls => inFrag ls
+
+/-- one or six displacement values; the remaining slots are zero -/
+def specU (u : List Rat) : List Rat := u ++ List.replicate (6 - u.length) 0
+
+def specAtom (before : List Line) (a : AtomLine) : AtomObs :=
+  let p := specPart before
+  let r := specResi before
+  { tag := a.tag, sfac := a.sfac,
+    sof := if p.sof ≠ 11 then p.sof else a.sof,        -- 11 is `PART n` without an occupation code
+    uvals := specU a.u, part := p.n, afix := specAfix before, resiNum := r.num, resiCls := r.cls,
+    qpeak := before.any isBarrier }
+
+/-- what one line adds to the atom list -/
+def contrib (before : List Line) : Line → List AtomObs
+  | .atom a => if inFrag before then [] else [specAtom before a]
+  | _ => []
+
+def specFrom (before : List Line) : List Line → List AtomObs
+  | [] => []
+  | l :: rest => contrib before l ++ specFrom (l :: before) rest
+
+/-- the atom list: one entry per atom line outside FRAG…FEND, in file order -/
+def specAtoms (file : List Line) : List AtomObs := specFrom [] file
+
+/-! #### domain (decidable) -/
+
+/-- What a line of a valid file satisfies, given the lines above it (nearest first):
+    * an atom line carries at most six displacement values;
+    * an atom line listed between HKLF and END has the shape of a peak (`Qn 1 x y z 11.0 0.05 height`) — this is
+      where the code's Q-peak rule (peak shaped ∧ HKLF seen, or END seen) and the property's (listed after
+      HKLF) could differ;
+    * FEND closes a FRAG (Python raises otherwise). -/
+def lineOK (before : List Line) : Line → Bool
+  | .atom a => decide (a.u.length ≤ 6) && (!(before.any isHklf) || before.any isFin || peakShaped (pad6 a.u))
+  | .fend => inFrag before
+  | _ => true
+
+def validFrom (before : List Line) : List Line → Bool
+  | [] => true
+  | l :: rest => lineOK before l && validFrom (l :: before) rest
+
+def valid (file : List Line) : Bool := validFrom [] file
+
+/-! ### element lookup -/
+
+/-- `Shelxfile.sfac2elem` over `SFACTable.__getitem__`: 0 raises IndexError (→ ''), a negative number counts
+    from the end, past the end raises IndexError (→ '') -/
+def sfac2elem (table : List String) (n : Int) : String :=
+  if n = 0 then ""
+  else
+    let idx : Int := if n < 0 then (table.length : Int) + n + 1 else n
+    let i : Int := idx - 1          -- Python list index, may be negative again
+    let j : Int := if i < 0 then i + table.length else i
+    if j < 0 then "" else match table[j.toNat]? with
+      | some e => e
+      | none => ""
+
+/-- the element at the scattering-factor number's position (1-based) of the SFAC table -/
+def specElement (table : List String) (n : Int) : Option String :=
+  if 1 ≤ n then table[(n - 1).toNat]? else none
+
+/-! ### RESI decoding -/
+
+structure ResiDef where
+  cls : String := ""
+  num : Int := 0
+  alias : Option Int := none
+  chain : Option String := none
+deriving DecidableEq, Repr
+
+/-- a token of a RESI line after the keyword, classified as `_get_resi_definition` does -/
+inductive RTok where
+  | word (w : String)                 -- contains a letter, no ':'
+  | chainNum (chain : String) (n : Int)   -- `A:12`
+  | num (n : Int)                     -- no letter: `int(x)`
+deriving DecidableEq, Repr
+
+/-- `for x in resi[1:]: …` -/
+def resiDecode (toks : List RTok) : ResiDef :=
+  toks.foldl (fun d t => match t with
+    | .word w => { d with cls := w }
+    | .chainNum c n => { d with chain := some c, num := n }
+    | .num n => if d.num > 0 then { d with alias := some n } else { d with num := n }) {}
+
+def isWord : RTok → Bool | .word _ => true | _ => false
+def isNum : RTok → Bool | .num _ => true | _ => false
+
+/-- `RESI class[ ] number[0] alias`, class and number in either order: the class is the word, the number the
+    first numeric token (or the part behind ':' of `chain:number`), the alias the second numeric token -/
+def resiSpec (toks : List RTok) : ResiDef :=
+  let words := toks.filterMap fun | .word w => some w | _ => none
+  let nums := toks.filterMap fun | .num n => some n | _ => none
+  let chains := toks.filterMap fun | .chainNum c n => some (c, n) | _ => none
+  match chains.head? with
+  | some (c, n) => { cls := words.head?.getD "", num := n, alias := nums.head?, chain := some c }
+  | none => { cls := words.head?.getD "", num := nums.head?.getD 0, alias := nums.tail.head?, chain := none }
+
+/-- the forms the syntax allows (`RESI class[ ] number[0] alias`, class and number in either order, the number
+    possibly written `chain:number`; an alias only behind a positive number) -/
+def resiFormOK : List RTok → Bool
+  | [] => true
+  | [.word _] => true
+  | [.num _] => true
+  | [.chainNum _ _] => true
+  | [.word _, .num _] => true
+  | [.num _, .word _] => true
+  | [.word _, .chainNum _ _] => true
+  | [.chainNum _ _, .word _] => true
+  | [.num n, .num _] => decide (n > 0)
+  | [.chainNum _ n, .num _] => decide (n > 0)
+  | [.word _, .num n, .num _] => decide (n > 0)
+  | [.num n, .word _, .num _] => decide (n > 0)
+  | [.num n, .num _, .word _] => decide (n > 0)
+  | [.word _, .chainNum _ n, .num _] => decide (n > 0)
+  | [.chainNum _ n, .word _, .num _] => decide (n > 0)
+  | [.chainNum _ n, .num _, .word _] => decide (n > 0)
+  | _ => false
+
+/-! ### include files (`+filename`) -/
+
+inductive Item where
+  | line (tag : Nat)          -- any line that is not an include line
+  | inc (name : String)       -- `+name`
+deriving DecidableEq, Repr
+
+abbrev FS := List (String × List Item)
+
+def fsGet (fs : FS) (name : String) : Option (List Item) := (fs.find? (·.1 = name)).map (·.2)
+
+/-- `_find_included_files`: walks the growing `_reslist`; at `+name` the file's lines are inserted right
+    behind the include line (which stays) and are walked next. A name seen before raises ValueError (`none`);
+    a file that cannot be read inserts nothing. `fuel` bounds the walk (each name is expanded at most once). -/
+def splice (fs : FS) : Nat → List String → List Item → Option (List Item)
+  | _, _, [] => some []
+  | 0, _, _ :: _ => none
+  | fuel + 1, seen, .line t :: rest => (splice fs fuel seen rest).map (Item.line t :: ·)
+  | fuel + 1, seen, .inc n :: rest =>
+    if n ∈ seen then none
+    else (splice fs fuel (n :: seen) ((fsGet fs n).getD [] ++ rest)).map (Item.inc n :: ·)
+
+/-- declarative: the content of a file with every include line followed by the (expanded) content of the file
+    it names; `depth` bounds the nesting -/
+def spliceSpec (fs : FS) : Nat → List Item → List Item
+  | _, [] => []
+  | d, .line t :: rest => .line t :: spliceSpec fs d rest
+  | 0, .inc n :: rest => .inc n :: spliceSpec fs 0 rest
+  | d + 1, .inc n :: rest => .inc n :: (spliceSpec fs d ((fsGet fs n).getD []) ++ spliceSpec fs (d + 1) rest)
+
+/-- SHELXL's reading of include lines, as a relation: `+name` is followed by the expansion of the file's content -/
+inductive Expands (fs : FS) : List Item → List Item → Prop where
+  | nil : Expands fs [] []
+  | line (t : Nat) {rest out : List Item} : Expands fs rest out → Expands fs (.line t :: rest) (.line t :: out)
+  | inc (n : String) {rest o1 o2 : List Item} : Expands fs ((fsGet fs n).getD []) o1 → Expands fs rest o2 →
+      Expands fs (.inc n :: rest) (.inc n :: (o1 ++ o2))
+
+def incNames : List Item → List String
+  | [] => []
+  | .inc n :: r => n :: incNames r
+  | .line _ :: r => incNames r
+
+/-- the nesting bound `d` of the executable specification suffices: no include line is left unexpanded -/
+def deepOK (fs : FS) : Nat → List Item → Bool
+  | _, [] => true
+  | d, .line _ :: rest => deepOK fs d rest
+  | 0, .inc n :: rest => ((fsGet fs n).getD []).isEmpty && deepOK fs 0 rest
+  | d + 1, .inc n :: rest => deepOK fs d ((fsGet fs n).getD []) && deepOK fs (d + 1) rest
+
+
+/-! ### derived views (atoms.py), as functions of the observed atom list plus the element of each atom -/
+
+structure ViewAtom where
+  obs : AtomObs
+  element : String
+deriving DecidableEq, Repr
+
+/-- the observed atoms together with `Atom.element` -/
+def viewAtoms (table : List String) (atoms : List AtomObs) : List ViewAtom :=
+  atoms.map fun o => { obs := o, element := sfac2elem table o.sfac }
+
+namespace View
+def isHydrogen (a : ViewAtom) : Bool := a.element = "H" || a.element = "D" || a.element = "T"
+def hydrogenAtoms (l : List ViewAtom) : List ViewAtom := l.filter isHydrogen
+def qPeaks (l : List ViewAtom) : List ViewAtom := l.filter (·.obs.qpeak)
+/-- `[x for x in hydrogen_atoms if x.afix]` -/
+def ridingAtoms (l : List ViewAtom) : List ViewAtom := (hydrogenAtoms l).filter fun a => decide (a.obs.afix > 0)
+/-- `atoms_in_class`: tags of the atoms whose residue class is `c`, first occurrence of each -/
+def atomsInClass (l : List ViewAtom) (c : String) : List Nat :=
+  l.foldl (fun acc a => if a.obs.resiCls = c && !acc.contains a.obs.tag then acc ++ [a.obs.tag] else acc) []
+/-- `set(x.resinum …)` as a duplicate-free list in order of first occurrence -/
+def residues (l : List ViewAtom) : List Int :=
+  l.foldl (fun acc a => if acc.contains a.obs.resiNum then acc else acc ++ [a.obs.resiNum]) []
+/-- `sum(x.uvals[1:])` (Python's `sum`: left to right from 0) -/
+def tailSum (u : List Rat) : Rat := (u.drop 1).foldl (· + ·) 0
+/-- `n_anisotropic_atoms`: `sum(x.uvals[1:]) > 0.00001` -/
+def nAniso (l : List ViewAtom) : Nat := (l.filter fun a => decide (tailSum a.obs.uvals > 1 / 100000)).length
+/-- `n_isotropic_atoms`: `sum(x.uvals[1:]) == 0.0` -/
+def nIso (l : List ViewAtom) : Nat := (l.filter fun a => decide (tailSum a.obs.uvals = 0)).length
+
+/-- specification: an atom is anisotropic when it has displacement values beyond the first -/
+def hasAniso (u : List Rat) : Bool := (u.drop 1).any (fun x => decide (x ≠ 0))
+/-- anisotropic atoms of the structure (peaks are not atoms) -/
+def specNAniso (l : List ViewAtom) : Nat := (l.filter fun a => !a.obs.qpeak && hasAniso a.obs.uvals).length
+def specNIso (l : List ViewAtom) : Nat := (l.filter fun a => !a.obs.qpeak && !hasAniso a.obs.uvals).length
+end View
 
 end Shelx.C03
